@@ -104,7 +104,7 @@ Variable ft : list (list N).
 Definition p_write (o : wopts) (m : mlas) : wres :=
   let fz k := match tab_hex t k with Some h => hex_is_zero h | None => false end in
   let hx k := match tab_hex t k with Some h => h | None => [63] end in
-  write (ftab_get ft) (fun b a => ftab_get ft (s2l "%.5f") (diff_key (hx b) (hx a)))
+  write (ftab_get ft) (fun f b a => ftab_get ft f (diff_key (hx b) (hx a)))
         (fun f => ftab_get ft f PI_KEY) (tab_str t) fz (tab_numeq t) o m.
 
 Fixpoint run_ops (ops : list (list N)) (st : pstate_) (acc : list N) : list N :=
